@@ -53,6 +53,10 @@ def measWidth (W : Widths) : Text → Nat
 inductive Proc where
   | tabs (ts : Nat) (c1 c2 : Char)
   | before (t : Text)
+  /-- BeforeInput whose text is a fragment list with `[ZeroWidthEscape]` fragments: `(zw, text)` with
+      `zw` = "the style string CONTAINS the marker" (also `'class:prompt [ZeroWidthEscape]'`, which
+      `to_formatted_text(.., style=..)` produces) -/
+  | beforeF (fr : List (Bool × Text))
   | after (t : Text)
   | password (c : Char)
   /-- ShowLeadingWhiteSpaceProcessor(get_char = c) -/
@@ -119,6 +123,18 @@ structure Trans where
   s2d : Nat → Option Nat
   d2s : Int → Int
 
+/-- `fragment_list_len` : `sum(len(item[1]) for item in fragments if ZeroWidthEscape not in item[0])` -/
+def fragLen : List (Bool × Text) → Nat
+  | [] => 0
+  | (zw, t) :: rest => (if zw then 0 else t.length) + fragLen rest
+
+/-- the characters of a fragment list that reach the screen: `copy_line` skips a fragment whose style
+    contains the marker (`continue`: no cell, no column), `fragment_list_to_text` / `fragment_list_width`
+    leave it out -/
+def fragVisible : List (Bool × Text) → Text
+  | [] => []
+  | (zw, t) :: rest => (if zw then [] else t) ++ fragVisible rest
+
 /-- a processor that returns `Transformation(fragments)` : default identity maps -/
 def idTrans (t : Text) : Trans := { frags := t, s2d := some, d2s := id }
 
@@ -139,6 +155,10 @@ def applyProc (lineno lineCount : Nat) : Proc → Text → Trans
   | .before b, t =>
     if lineno = 0 then
       { frags := b ++ t, s2d := fun i => some (i + b.length), d2s := fun j => j - b.length }
+    else idTrans t
+  | .beforeF fr, t =>
+    if lineno = 0 then
+      { frags := fragVisible fr ++ t, s2d := fun i => some (i + fragLen fr), d2s := fun j => j - fragLen fr }
     else idTrans t
   | .after a, t =>
     if lineno + 1 = lineCount then idTrans (t ++ a) else idTrans t
